@@ -26,17 +26,17 @@ def isScalar : J → Bool
   | .obj _ => false
   | _ => true
 
-theorem claimsOf_scalar (fuel : Nat) (n path k : String) (x : J) (hx : isScalar x = true) :
-    claimsOf (fuel + 1) n path k x = [⟨n, k, scalarR x⟩] := by
+theorem claimsOf_scalar (d : String → Bool) (fuel : Nat) (n path k : String) (x : J) (hx : isScalar x = true) :
+    claimsOf d (fuel + 1) n path k x = [⟨n, k, scalarR x⟩] := by
   cases x <;> simp_all [claimsOf, isScalar]
 
-theorem claimsOf_arr (fuel : Nat) (n path k : String) (l : List J) :
-    claimsOf (fuel + 1) n path k (.arr l) =
-      l.zipIdx.flatMap fun (x, i) => claimsOf fuel n (path ++ "#" ++ toString i) k x := by
+theorem claimsOf_arr (d : String → Bool) (fuel : Nat) (n path k : String) (l : List J) :
+    claimsOf d (fuel + 1) n path k (.arr l) =
+      l.zipIdx.flatMap fun (x, i) => claimsOf d fuel n (path ++ "#" ++ toString i) k x := by
   rw [claimsOf]
 
-theorem claimsOf_scalars (fuel : Nat) (n path k : String) (l : List J) (hl : ∀ x ∈ l, isScalar x = true) :
-    ∀ c, c ∈ claimsOf (fuel + 2) n path k (.arr l) ↔ ∃ x ∈ l, c = ⟨n, k, scalarR x⟩ := by
+theorem claimsOf_scalars (d : String → Bool) (fuel : Nat) (n path k : String) (l : List J) (hl : ∀ x ∈ l, isScalar x = true) :
+    ∀ c, c ∈ claimsOf d (fuel + 2) n path k (.arr l) ↔ ∃ x ∈ l, c = ⟨n, k, scalarR x⟩ := by
   intro c
   rw [claimsOf_arr, List.mem_flatMap]
   constructor
@@ -45,33 +45,33 @@ theorem claimsOf_scalars (fuel : Nat) (n path k : String) (l : List J) (hl : ∀
       have h := (List.mem_zipIdx_iff_getElem?.mp hxi)
       exact List.mem_of_getElem? h
     simp only at hc
-    rw [claimsOf_scalar fuel n _ k x (hl x hx)] at hc
+    rw [claimsOf_scalar d fuel n _ k x (hl x hx)] at hc
     exact ⟨x, hx, by simpa using hc⟩
   · rintro ⟨x, hx, rfl⟩
     obtain ⟨i, hi, rfl⟩ := List.getElem_of_mem hx
     refine ⟨(l[i], i), ?_, ?_⟩
     · exact List.mem_zipIdx_iff_getElem?.mpr (by simp [hi])
     · simp only
-      rw [claimsOf_scalar fuel n _ k _ (hl _ (List.getElem_mem _))]; simp
+      rw [claimsOf_scalar d fuel n _ k _ (hl _ (List.getElem_mem _))]; simp
 
 /-- reordering (or repeating) the values of a set-valued term changes no statement -/
-theorem C07_array_order (fuel : Nat) (n path k : String) (l1 l2 : List J)
+theorem C07_array_order (d : String → Bool) (fuel : Nat) (n path k : String) (l1 l2 : List J)
     (h1 : ∀ x ∈ l1, isScalar x = true) (h2 : ∀ x ∈ l2, isScalar x = true) (hsame : ∀ x, x ∈ l1 ↔ x ∈ l2) :
-    sameSet (claimsOf (fuel + 2) n path k (.arr l1)) (claimsOf (fuel + 2) n path k (.arr l2)) = true := by
+    sameSet (claimsOf d (fuel + 2) n path k (.arr l1)) (claimsOf d (fuel + 2) n path k (.arr l2)) = true := by
   simp only [sameSet, List.all_eq_true, Bool.and_eq_true, List.contains_eq_mem, decide_eq_true_eq]
   constructor
   · intro c hc
-    obtain ⟨x, hx, rfl⟩ := (claimsOf_scalars fuel n path k l1 h1 c).mp hc
-    exact (claimsOf_scalars fuel n path k l2 h2 _).mpr ⟨x, (hsame x).mp hx, rfl⟩
+    obtain ⟨x, hx, rfl⟩ := (claimsOf_scalars d fuel n path k l1 h1 c).mp hc
+    exact (claimsOf_scalars d fuel n path k l2 h2 _).mpr ⟨x, (hsame x).mp hx, rfl⟩
   · intro c hc
-    obtain ⟨x, hx, rfl⟩ := (claimsOf_scalars fuel n path k l2 h2 c).mp hc
-    exact (claimsOf_scalars fuel n path k l1 h1 _).mpr ⟨x, (hsame x).mpr hx, rfl⟩
+    obtain ⟨x, hx, rfl⟩ := (claimsOf_scalars d fuel n path k l2 h2 c).mp hc
+    exact (claimsOf_scalars d fuel n path k l1 h1 _).mpr ⟨x, (hsame x).mpr hx, rfl⟩
 
 /-- **what the signature does not cover**: an undefined member (no `id`) added to the credential changes no statement,
     at the top level … -/
-theorem C07_undefined_invisible_top (kvs : List (String × J)) (u : String) (v : J) (hu : defined u = false)
+theorem C07_undefined_invisible_top (d : String → Bool) (kvs : List (String × J)) (u : String) (v : J) (hu : d u = false)
     (hid : u ≠ "id") :
-    docClaims (.obj (kvs ++ [(u, v)])) = docClaims (.obj kvs) := by
+    docClaims d (.obj (kvs ++ [(u, v)])) = docClaims d (.obj kvs) := by
   have hfind : (kvs ++ [(u, v)]).find? (·.1 == "id") = kvs.find? (·.1 == "id") := by
     rw [List.find?_append]
     cases kvs.find? (·.1 == "id") with
@@ -82,7 +82,8 @@ theorem C07_undefined_invisible_top (kvs : List (String × J)) (u : String) (v :
 
 /-- … hence default verification accepts the credential with the extra member, and only strict validation refuses it:
     this is the contract the property states, as a theorem about the model -/
-theorem C07_strict_needed (orig : J) (kvs : List (String × J)) (u : String) (v : J) (hu : defined u = false)
+theorem C07_strict_needed (orig : J) (kvs : List (String × J)) (u : String) (v : J)
+    (hu : definedFor (.obj kvs) u = false)
     (hid : u ≠ "id") (hp : u ≠ "proof") (hc : u ≠ "@context") (ho : orig = .obj kvs)
     (hproof : (member orig "proof").isSome) :
     expected orig (.obj (kvs ++ [(u, v)])) = ("acc", "rej") := by
@@ -93,21 +94,27 @@ theorem C07_strict_needed (orig : J) (kvs : List (String × J)) (u : String) (v 
     cases h : kvs.find? (·.1 == k) with
     | some x => rfl
     | none => simp [Ne.symm hk]
+  have hd : definedFor (.obj (kvs ++ [(u, v)])) = definedFor (.obj kvs) := by
+    unfold definedFor
+    have := hget "@context" (Ne.symm hc)
+    simp only [member] at this
+    rw [this]
   unfold expected
-  rw [hget "proof" (Ne.symm hp), hget "@context" (Ne.symm hc)]
+  rw [hget "proof" (Ne.symm hp), hget "@context" (Ne.symm hc), hd]
   cases hpm : member (.obj kvs) "proof" with
   | none => simp [hpm] at hproof
   | some p =>
     simp only [Option.map_some, beq_self_eq_true, Bool.true_and]
-    rw [C07_undefined_invisible_top kvs u v hu hid, sameSet_refl]
-    have hund : hasUndefined 16 (.obj (kvs ++ [(u, v)])) = true := by
+    rw [C07_undefined_invisible_top _ kvs u v hu hid, sameSet_refl]
+    have hund : hasUndefined (definedFor (.obj kvs)) 16 (.obj (kvs ++ [(u, v)])) = true := by
       simp only [hasUndefined, List.any_append, List.any_cons, List.any_nil, Bool.or_false, Bool.or_eq_true]
       right
       simp [hu, hp, hc]
     simp [hund]
 
 /-- an altered, removed or added DEFINED statement is refused -/
-theorem C07_claims_differ_rejected (orig mutated : J) (h : sameSet (docClaims orig) (docClaims mutated) = false) :
+theorem C07_claims_differ_rejected (orig mutated : J)
+    (h : sameSet (docClaims (definedFor mutated) orig) (docClaims (definedFor mutated) mutated) = false) :
     expected orig mutated = ("rej", "rej") ∨ expected orig mutated = ("noproof", "noproof") := by
   unfold expected
   cases member mutated "proof" with
@@ -134,15 +141,15 @@ def person (extra : List (String × J)) : J := .obj ([("name", .str "Bob")] ++ e
 def f1Doc : J := .obj [("id", .str "urn:x"), ("knows", .arr [person [], person [("undefinedTerm", .str "added")]])]
 
 /-- **C07-F1 as a theorem about the code before the repair**: strict validation accepted it … -/
-theorem C07_F1_old_accepts : strictOkOld f1Doc = true ∧ hasUndefined 16 f1Doc = true := by decide
+theorem C07_F1_old_accepts : strictOkOld defined f1Doc = true ∧ hasUndefined defined 16 f1Doc = true := by decide
 
 /-- … and the repaired comparison refuses it, also for one-element arrays and nested objects -/
-theorem C07_F1_now_rejects : strictOk f1Doc = false := by decide
+theorem C07_F1_now_rejects : strictOk defined f1Doc = false := by decide
 
-example : strictOk (.obj [("id", .str "urn:x"), ("knows", .arr [person [("undefinedTerm", .num 1)]])]) = false := by decide
-example : strictOk (.obj [("id", .str "urn:x"), ("degree", .obj [("college", .str "MIT"), ("undefinedTerm", .num 1)])]) = false := by
+example : strictOk defined (.obj [("id", .str "urn:x"), ("knows", .arr [person [("undefinedTerm", .num 1)]])]) = false := by decide
+example : strictOk defined (.obj [("id", .str "urn:x"), ("degree", .obj [("college", .str "MIT"), ("undefinedTerm", .num 1)])]) = false := by
   decide
-example : strictOk (.obj [("id", .str "urn:x"), ("knows", .arr [person [], person []]), ("tags", .arr [.str "x", .str "y"])]) = true := by
+example : strictOk defined (.obj [("id", .str "urn:x"), ("knows", .arr [person [], person []]), ("tags", .arr [.str "x", .str "y"])]) = true := by
   decide
 
 end Strict
